@@ -27,6 +27,7 @@ Exit status 0 always; per-kernel failures are reported in
 lean/BLDFM/Generated/report.json (a missing kernel breaks its bridge).
 """
 import ast
+import re
 import json
 import os
 import sys
@@ -199,6 +200,23 @@ class Opaque:
     def __init__(self, why):
         self.why = why
 
+
+# (name, regex of the right-hand side) of statements that PRODUCE a declared kernel input
+REBIND_OK = [
+    (r"tfft[pq]m?[12]", r"ivp_solver\(.*\)"),
+    ("tfftq0", r"fftq0\[dly:dly \+ nly, dlx:dlx \+ nlx\]"), ("tfftq0", r"ifftshift\(tfftq0\)"),
+    (r"fft[pq]0", r"fftpq"),
+    (r"grid_[xy]", r"np\.meshgrid\(.*\)"),
+]
+REBIND_OK = [(None, None)] and [(nm, pat) for nm, pat in REBIND_OK]
+# (declared input, test text) pairs where one branch only supplies the input's default
+BRANCH_OK = {
+    ("halo", "halo is None"), ("nlx", "nlx > nxe or nly > nye"), ("nly", "nlx > nxe or nly > nye"), ("tfftq0", "footprint"),
+    ("z", "cache is not None and footprint"),
+    ("z0", "z0 is None"), ("z0", "closure == 'OAAHOC'"), ("z0", "closure == 'CONSTANT' or closure == 'MOST' or closure == 'MOSTM'"),
+    ("ustar", "z0 is None"), ("ustar", "ustar is None"), ("ustar", "closure == 'CONSTANT' or closure == 'MOST' or closure == 'MOSTM'"),
+    ("tke", "tke is None"), ("tke", "closure == 'OAAHOC'"), ("tke", "closure == 'CONSTANT' or closure == 'MOST' or closure == 'MOSTM'"),
+}
 
 MODULE_NAMES = {"np", "numpy", "math", "scipy", "spsp", "special", "config", "fft_manager", "pyfftw", "numba", "os", "sys"}
 
@@ -417,9 +435,14 @@ class Exec:
             return
         if isinstance(target, ast.Name):
             if isinstance(value, Opaque) and target.id in self.env0:
-                # a declared input re-bound to something the translator cannot follow
-                # (e.g. the result of a call): it stays the declared input symbol
-                value = self.env0[target.id]
+                # a declared input re-bound to something the translator cannot follow: it stays the declared input
+                # symbol ONLY for the known producer statements below (the kernel's inputs are DEFINED as the results
+                # of those calls); any other re-binding makes the name opaque, so a kernel that uses it fails to translate
+                rhs = getattr(self, "cur_rhs", "")
+                if any(re.fullmatch(nm, target.id) and re.fullmatch(pat, rhs) for nm, pat in REBIND_OK):
+                    value = self.env0[target.id]
+                else:
+                    value = Opaque("declared input `%s` re-bound by `%s`" % (target.id, rhs[:60]))
             self.env[target.id] = value
         elif isinstance(target, (ast.Subscript, ast.Attribute)):
             # an element / masked / attribute store changes the value the base name denotes: every later
@@ -445,12 +468,14 @@ class Exec:
             self.path = path
             if isinstance(s, ast.Assign):
                 v = self.try_ev(s.value)
+                self.cur_rhs = ast.unparse(s.value)
                 for t in s.targets:
                     self.assign(t, v, path)
             elif isinstance(s, ast.AugAssign):
                 bop = ast.BinOp(left=s.target, op=s.op, right=s.value)
                 ast.copy_location(bop, s)
                 ast.fix_missing_locations(bop)
+                self.cur_rhs = ast.unparse(bop)
                 self.assign(s.target, self.try_ev(bop), path)
             elif isinstance(s, ast.If):
                 ttxt = ast.unparse(s.test)
@@ -469,8 +494,11 @@ class Exec:
                     elif k not in env_a or k not in env_b:
                         # defined on one path only: any later use is on that path (else Python raises NameError)
                         merged[k] = va if k in env_a else vb
-                    elif k in self.env0:
+                    elif k in self.env0 and (k, ttxt) in BRANCH_OK:
+                        # a declared input given a default in one branch: the kernels are stated on the resolved value
                         merged[k] = self.env0[k]
+                    elif k in self.env0:
+                        merged[k] = Opaque("declared input `%s` assigned in a branch of `if %s`" % (k, ttxt))
                     else:
                         merged[k] = Opaque("assigned differently in the branches of `if %s`" % ttxt)
                 self.env = merged
@@ -611,7 +639,7 @@ class Group:
 
     def write_raw(self):
         os.makedirs(OUT, exist_ok=True)
-        text = ("/- GENERATED by tools/extract.py from %s — do not edit. -/\nimport BLDFM.Cache\nnamespace BLDFM.Generated.Tables\n\n" % self.src
+        text = ("/- GENERATED by tools/extract.py from %s — do not edit. -/\nimport BLDFM.Cache\nimport BLDFM.CacheProto\nimport BLDFM.Dtype\nnamespace BLDFM.Generated.Tables\n\n" % self.src
                 + "\n".join(self.defs) + "\nend BLDFM.Generated.Tables\n")
         path = os.path.join(OUT, self.name + ".lean")
         old = open(path).read() if os.path.exists(path) else None
@@ -1330,6 +1358,25 @@ def tables_group():
             str(atomic).lower(), str(guarded).lower()))
         g.report["cacheCfg"] = "ok"
         g.report["_cacheCfg"] = cfgd
+        # C15 (concurrency): the write protocol as seen by OTHER processes sharing the directory
+        rep_calls = [n for n in ast.walk(put) if isinstance(n, ast.Call) and ast.unparse(n.func) in ("os.replace", "os.rename")]
+        temp_per_process = False
+        if rep_calls:
+            src_name = ast.unparse(rep_calls[0].args[0])
+            for n in ast.walk(put):
+                if isinstance(n, ast.Assign) and ast.unparse(n.targets[0]) == src_name:
+                    v = ast.unparse(n.value)
+                    if any(t in v for t in ("getpid()", "uuid", "mkstemp", "NamedTemporaryFile", "token_hex")):
+                        temp_per_process = True
+        destructive = ("unlink", "remove", "rmtree", "rmdir", "rename", "replace", "clear", "truncate", "write_bytes", "write_text")
+        removes = False
+        for fname in ("__init__", "get", "_compute_key"):
+            for n in ast.walk(cf[fname]):
+                if isinstance(n, ast.Call) and isinstance(n.func, ast.Attribute) and n.func.attr in destructive:
+                    removes = True
+        lines.append("def protoCfg : BLDFM.ProtoCfg := { atomicWrite := %s, tempPerProcess := %s, initRemovesTemps := %s, guardedLoad := %s }" % (
+            str(atomic).lower(), str(temp_per_process).lower(), str(removes).lower(), str(guarded).lower()))
+        g.report["protoCfg"] = "ok"
     except Exception as e:  # noqa: BLE001
         g.report["cacheCfg"] = "FAILED: %r" % (e,)
     # C20: the statement sequences of get_source_area and extract_percentile_contour (canonical text)
@@ -1348,6 +1395,35 @@ def tables_group():
         g.report["sourceAreaSteps"] = "ok"
     except Exception as e:  # noqa: BLE001
         g.report["sourceAreaSteps"] = "FAILED: %r" % (e,)
+    # C19 / C20 dtype clause: how the masked-store helpers allocate their results
+    try:
+        ktree = ast.parse(open(os.path.join(REPO_SRC, "ffm_kormann_meixner.py")).read())
+        allocs = []
+        for fn in ktree.body:
+            if isinstance(fn, ast.FunctionDef) and fn.name in ("_phiM", "_phiC", "_psiM", "_nParam"):
+                kinds = []
+                for n in ast.walk(fn):
+                    if isinstance(n, ast.Call) and ast.unparse(n.func) in ("np.zeros_like", "np.empty_like", "np.ones_like", "np.full_like", "np.zeros", "np.empty"):
+                        fl = any(kw.arg == "dtype" and ast.unparse(kw.value) in ("float", "np.float64", "np.double", "'float64'", "'float'") for kw in n.keywords)
+                        if ast.unparse(n.func) in ("np.zeros", "np.empty"):
+                            fl = not any(kw.arg == "dtype" for kw in n.keywords) or fl
+                        kinds.append(fl)
+                allocs.append((fn.name, bool(kinds) and all(kinds)))
+        lines.append("def kmAlloc : List (String × BLDFM.AllocKind) := [%s]" % ", ".join('("%s", %s)' % (n, ".float" if f else ".inherit") for n, f in allocs))
+        sfn = load_fn(os.path.join(REPO_SRC, "utils.py"), "get_source_area")
+        sa = []
+        for n in ast.walk(sfn):
+            if isinstance(n, ast.Assign) and isinstance(n.value, ast.Call) and ast.unparse(n.value.func) in ("np.empty_like", "np.zeros_like"):
+                tgt = ast.unparse(n.targets[0])
+                arg0 = ast.unparse(n.value.args[0]) if n.value.args else ""
+                dk = [ast.unparse(kw.value) for kw in n.value.keywords if kw.arg == "dtype"]
+                # fixed = the result type does not come from the base field g
+                fixed = ("g" not in re.findall(r"[A-Za-z_]+", arg0)[0:1] and not arg0.startswith("g")) or (bool(dk) and not any(re.match(r"g(_|\\b)", d) for d in dk))
+                sa.append((tgt, fixed))
+        lines.append("def sourceAreaAlloc : List (String × BLDFM.AllocKind) := [%s]" % ", ".join('("%s", %s)' % (n, ".float" if f else ".inherit") for n, f in sa))
+        g.report["allocTables"] = "ok"
+    except Exception as e:  # noqa: BLE001
+        g.report["allocTables"] = "FAILED: %r" % (e,)
     g.defs = [l + "\n" for l in lines]
     g.write_raw()
     return g
@@ -1500,10 +1576,143 @@ def refreeze(sol, sol_err, target, frozen, path_has=(), extra_aliases=None):
     return ex.probe(target, path_has=path_has)
 
 
+# ------------------------------------------------------------------ whole-function body tables
+# (file, qualified name, table name).  The canonical statement text of each function the hand-written model covers
+# only through the correspondence run; pinned literally in Proofs/Bridge/Bodies.lean (regenerate the pins with
+# tools/pin_bodies.py AFTER re-validating the model against the edited function).
+BODY_SPECS = [
+    ("io.py", "save_footprints_to_netcdf", "io_save"),
+    ("io.py", "load_footprints_from_netcdf", "io_load"),
+    ("config_parser.py", "MetConfig.n_timesteps", "met_n_timesteps"),
+    ("config_parser.py", "MetConfig.get_step", "met_get_step"),
+    ("config_parser.py", "MetConfig.validate", "met_validate"),
+    ("config_parser.py", "BLDFMConfig.__post_init__", "config_post_init"),
+    ("config_parser.py", "TowerConfig.compute_local_xy", "tower_compute_local_xy"),
+    ("config_parser.py", "parse_config_dict", "parse_config_dict"),
+    ("cli.py", "cmd_run", "cli_cmd_run"),
+    ("fft_manager.py", "get_fft_manager", "fft_get_manager"),
+    ("fft_manager.py", "reset_fft_manager", "fft_reset_manager"),
+    ("fft_manager.py", "fft2", "fft_fft2"),
+    ("fft_manager.py", "ifft2", "fft_ifft2"),
+    ("fft_manager.py", "FFTManager.__init__", "fftmgr_init"),
+    ("fft_manager.py", "FFTManager.fft2", "fftmgr_fft2"),
+    ("fft_manager.py", "FFTManager.ifft2", "fftmgr_ifft2"),
+    ("utils.py", "parallelize", "utils_parallelize"),
+    ("utils.py", "ideal_source", "utils_ideal_source"),
+    ("utils.py", "point_measurement", "utils_point_measurement"),
+    ("utils.py", "compute_wind_fields", "utils_compute_wind_fields"),
+    ("cache.py", "GreensFunctionCache.__init__", "cache_init"),
+    ("cache.py", "GreensFunctionCache._compute_key", "cache_compute_key"),
+    ("cache.py", "GreensFunctionCache.get", "cache_get"),
+    ("cache.py", "GreensFunctionCache.put", "cache_put"),
+    ("pbl_model.py", "vertical_profiles", "pbl_vertical_profiles"),
+    ("ffm_kormann_meixner.py", "estimateFootprint", "km_estimateFootprint"),
+    ("plotting/_common.py", "_maybe_slice_level", "plot_maybe_slice_level"),
+    ("plotting/_geo.py", "xy_to_latlon", "geo_xy_to_latlon"),
+    ("config_parser.py", "latlon_to_xy", "cfg_latlon_to_xy"),
+    ("utils.py", "get_source_area", "utils_get_source_area"),
+    ("ffm_kormann_meixner.py", "estimateZ0", "km_estimateZ0"),
+    ("interface.py", "run_bldfm_single", "iface_run_single"),
+    ("solver.py", "steady_state_transport_solver", "solver_steady_state"),
+    ("solver.py", "ivp_solver", "solver_ivp"),
+]
+
+
+def canonical_body(fn):
+    """canonical statement text of a function body: docstrings and logger calls dropped, compound statements by
+    header + indented children (every clause: else / except / finally included)"""
+    out = []
+
+    def is_log(st):
+        return (isinstance(st, ast.Expr) and isinstance(st.value, ast.Call)
+                and re.match(r"(logger|logging|log)\.", ast.unparse(st.value.func)) is not None)
+
+    def rec(body, depth):
+        for st in body:
+            if isinstance(st, ast.Expr) and isinstance(st.value, ast.Constant):
+                continue
+            if is_log(st):
+                continue
+            ind = "  " * depth
+            if isinstance(st, (ast.If, ast.For, ast.While, ast.With, ast.AsyncFor, ast.AsyncWith)):
+                out.append(ind + ast.unparse(st).split("\n")[0])
+                rec(st.body, depth + 1)
+                if getattr(st, "orelse", None):
+                    out.append(ind + "else:")
+                    rec(st.orelse, depth + 1)
+            elif isinstance(st, ast.Try):
+                out.append(ind + "try:")
+                rec(st.body, depth + 1)
+                for h in st.handlers:
+                    out.append(ind + "except %s%s:" % (ast.unparse(h.type) if h.type else "", " as " + h.name if h.name else ""))
+                    rec(h.body, depth + 1)
+                if st.orelse:
+                    out.append(ind + "else:")
+                    rec(st.orelse, depth + 1)
+                if st.finalbody:
+                    out.append(ind + "finally:")
+                    rec(st.finalbody, depth + 1)
+            elif isinstance(st, (ast.FunctionDef, ast.AsyncFunctionDef, ast.ClassDef)):
+                out.append(ind + ast.unparse(st).split("\n")[0])
+                rec(st.body, depth + 1)
+            else:
+                out.append(ind + " ".join(ast.unparse(st).split()))
+    rec(fn.body, 0)
+    return out
+
+
+def find_qual(tree, qual):
+    parts = qual.split(".")
+    scope = tree.body
+    node = None
+    for pn in parts:
+        node = None
+        for n in scope:
+            if isinstance(n, (ast.FunctionDef, ast.ClassDef, ast.AsyncFunctionDef)) and n.name == pn:
+                node = n
+        if node is None:
+            raise TranslateError("%s not found" % qual)
+        scope = node.body
+    return node
+
+
+def lean_str(x):
+    return '"%s"' % x.replace("\\", "\\\\").replace('"', "'")
+
+
+def bodies_group():
+    g = Group("Bodies", "whole-function statement tables (io, config_parser, cli, fft_manager, utils, cache, pbl_model, KM, interface)")
+    lines = []
+    for (rel, qual, tname) in BODY_SPECS:
+        try:
+            tree = ast.parse(open(os.path.join(REPO_SRC, rel)).read())
+            fn = find_qual(tree, qual)
+            sig = "def %s(%s)" % (fn.name, ast.unparse(fn.args))
+            deco = ["@" + ast.unparse(d) for d in fn.decorator_list]
+            body = deco + [sig] + canonical_body(fn)
+            lines.append("def %s : List String := [%s]" % (tname, ", ".join(lean_str(b) for b in body)))
+            g.report[tname] = "ok"
+        except Exception as e:  # noqa: BLE001
+            lines.append("def %s : List String := [\"<extraction failed>\"]" % tname)
+            g.report[tname] = "FAILED: %r" % (e,)
+    g.defs = [l + "\n" for l in lines]
+    os.makedirs(OUT, exist_ok=True)
+    text = ("/- GENERATED by tools/extract.py from %s — do not edit. -/\nnamespace BLDFM.Generated.Bodies\n\n" % g.src
+            + "\n".join(g.defs) + "\nend BLDFM.Generated.Bodies\n")
+    path = os.path.join(OUT, g.name + ".lean")
+    old = open(path).read() if os.path.exists(path) else None
+    if old != text:
+        tmp = path + ".%d.tmp" % os.getpid()
+        with open(tmp, "w") as f:
+            f.write(text)
+        os.replace(tmp, path)
+    return g
+
+
 def main():
     os.makedirs(OUT, exist_ok=True)
     report = {}
-    groups = [solver_group, misc_group, pbl_group, km_group, tables_group]
+    groups = [solver_group, misc_group, pbl_group, km_group, tables_group, bodies_group]
     for mk in groups:
         try:
             g = mk()
